@@ -594,7 +594,7 @@ def _asgi_tasks(ctx):
         out = []
         for i in range(len(specs)):
             try:
-                out.append(('ok', await asyncio.wait_for(call(app, i, specs[i], chunkings[i]), 5)))
+                out.append(('ok', await asyncio.wait_for(call(app, i, specs[i], chunkings[i]), 120)))
             except BaseException as e:  # noqa
                 out.append(('exc', type(e).__name__, str(e)[:120]))
         return out
@@ -768,7 +768,7 @@ def _wsgi_threads(ctx):
 
             def work(i):
                 try:
-                    bar.wait(5)
+                    bar.wait(120)
                     got[i] = ('ok', call(app, specs[i]))
                 except BaseException as e:  # noqa
                     got[i] = ('exc', type(e).__name__, str(e)[:120])
@@ -776,7 +776,7 @@ def _wsgi_threads(ctx):
             for t in ts:
                 t.start()
             for t in ts:
-                t.join(10)
+                t.join(180)
             why = 'a thread did not finish' if any(t.is_alive() for t in ts) else verdict(specs, got, want)
             ctx.oracle(O_W, why is None, why, {'interface': 'wsgi', 'mode': 'free-running threads', 'middleware': n_mw, 'independent_middleware': indep, 'requests': specs})
             ctx.seen(('wf', n_mw, indep, str(specs)), True)
